@@ -76,11 +76,17 @@ structure ProcSt (F G : Type) where
   terms : List (F × G)
   fixed : List (String × F)
 
-/-- One iteration of `process_msm`: dispatch on the label; `none` = `assert_eq!` fails. -/
+variable [Zero F] [One F] [Add F] [Mul F] [DecidableEq F] [Zero G] [Add G] [SMul F G]
+
+/-- One iteration of `process_msm`: dispatch on the label; `none` = `assert_eq!` fails. A
+fixed-base scalar is ADDED to the entry of its name
+(`*fixed_base_scalars.entry(name).or_insert(ZERO) += *scalar`, commit 348977f; the pinned code
+used `insert`, which kept only the last scalar of a repeated name). -/
 def processTerm [DecidableEq G] (pfx : String) (fb : List (String × G)) (st : ProcSt F G)
     (t : Term F G) : Option (ProcSt F G) :=
   let fixedCase (name : String) : Option (ProcSt F G) :=
-    if bmGet fb name = some t.base then some { st with fixed := bmInsert name t.scalar st.fixed }
+    if bmGet fb name = some t.base then
+      some { st with fixed := bmUpsert name (0 + t.scalar) (· + t.scalar) st.fixed }
     else none
   match t.label with
   | .fixed i => fixedCase (fixedCommitmentName pfx i)
@@ -108,8 +114,6 @@ def fromDualMsm [DecidableEq G] (d : DualMsm F G) (pfx : String) (fb : List (Str
     match processMsm pfx fb d.right ⟨[], []⟩ with
     | none => none
     | some r => some ⟨⟨l.terms, l.fixed⟩, ⟨r.terms, r.fixed⟩⟩
-
-variable [Zero F] [One F] [Add F] [Mul F] [DecidableEq F] [Zero G] [Add G] [SMul F G]
 
 /-- The fixed-base terms of `Msm::eval`: `none` = `panic!("Base not provided: {key}")`. -/
 def fixedTerms (fb : List (String × G)) : List (String × F) → Option (List (F × G))
